@@ -23,7 +23,29 @@ for i in ids:
         fnote += ' (' + m['first_run']['note'] + ')'
     rows.append(f"| {i} | {(m.get('summary') or '')[:170].replace('|','/')}... | {fmt(first)}{fnote} | {fmt(fin)}{(' — ' + extra) if extra else ''} | `{sm.group(1) if sm else '-'}` |")
     n += 1
+# summary numbers
+import collections
+tot = 0; own = 0; cross = 0; nc = []; firstmiss = 15  # waves 1 and 2: 15 misses, listed by hand in the first table
+perw = collections.Counter()
+for i in ids:
+    m = json.load(open(f'/verif/seeded/{i}/meta.json'))
+    tot += 1; perw[wave(i)] += 1
+    fin = m.get('checks_run', []); first = m.get('first_run', {}).get('checks')
+    if first is not None and not any(c['detected'] for c in first):
+        firstmiss += 1
+    if any(c['detected'] for c in fin if c['check'] == m['property']):
+        own += 1
+    elif m.get('cross'):
+        cross += 1
+    else:
+        nc.append(i)
+summary = (f"**Result (generated from the metas).** {tot} changes in {len(perw)} waves ({tot//13} per property). "
+           f"{own} are caught by the quick check of the property they were written for in the last recorded run, "
+           f"{cross} only by the quick check of another property that owns the behaviour they break (column \"now\"), "
+           f"{len(nc)} by no quick check ({', '.join(nc)}; the reason is given in the table). "
+           f"{firstmiss} were missed when first tried.")
 s = open('/verif/DESIGN.md').read()
+s = re.sub(r'(<!-- seeded:summary -->\n).*?(\n<!-- /seeded:summary -->)', lambda mm: mm.group(1) + summary + mm.group(2), s, flags=re.S)
 s = re.sub(r'(<!-- seeded:table -->\n).*?(\n<!-- /seeded:table -->)', lambda mm: mm.group(1) + '\n'.join(rows) + mm.group(2), s, flags=re.S)
 open('/verif/DESIGN.md', 'w').write(s)
 print(n, 'rows')
